@@ -40,7 +40,7 @@ def cases(tier):
                 # that is itself a fragment
                 out.append(dict(outcome=oc, rep=rep, crc=0, wide=1))
                 out.append(dict(outcome=oc, rep=rep, crc=1, wide=1))
-                if oc in ('forward', 'delete', 'fwdfail', 'mtufail'):
+                if oc in ('forward', 'delete', 'fwdfail'):    # not mtufail: the implementation never re-fragments a fragment, it is forwarded whole
                     out.append(dict(outcome=oc, rep=rep, crc=2, frag=1))
     return out
 
